@@ -1187,7 +1187,67 @@ def _stub_libc_mem(what):
     return stub
 
 
+def _byte_at(ex, st, p, i, guard):
+    """byte p[i] read under `guard` (the bounds obligation of the read is conditional on the guard)"""
+    st.pc.append(guard)
+    try:
+        q = ex.gep(st, IntT(8), p, [(IntT(64), z3.BitVecVal(i, 64))])
+        if isinstance(q, Ptr) and q.obj != 0:
+            o = st.objs.get(q.obj)
+            if o is not None and isinstance(q.off, int) and not z3.is_expr(o.size) and o.size is not None and q.off >= o.size:
+                ex.add_obl(st, z3.BoolVal(False), 'out-of-bounds string read obj=%s off=%d objsize=%s' % (o.name, q.off, o.size)); return None
+        return ex.load(st, q, IntT(8))
+    finally:
+        st.pc.pop()
+
+
+def _strcap(ex, st, p):
+    cap = st.aux.get('strcap', 16)
+    if isinstance(p, Ptr) and p.obj in st.objs:
+        o = st.objs[p.obj]
+        if o.size is not None and not z3.is_expr(o.size) and isinstance(p.off, int): cap = min(cap, max(o.size - p.off, 0) + 1)
+    return cap
+
+
+def _stub_strlen(ex, st, args, ins):
+    p = args[0]; K = _strcap(ex, st, p)
+    reached = z3.BoolVal(True); parts = []
+    for i in range(K):
+        c = _byte_at(ex, st, p, i, reached)
+        if c is None: break
+        parts.append((reached, c)); reached = z3.And(reached, c != 0)
+    out = z3.BitVecVal(len(parts), 64)
+    for i in reversed(range(len(parts))):
+        g, c = parts[i]; out = z3.If(z3.And(g, c == 0), z3.BitVecVal(i, 64), out)
+    ex.add_obl(st, z3.Not(reached), 'string is NUL-terminated within the modelled cap (strlen)', kind='model')
+    return out
+
+
+def _stub_cmp(kind):
+    def stub(ex, st, args, ins):
+        a, b = args[0], args[1]
+        n = args[2] if kind in ('strncmp', 'memcmp') else None
+        K = max(_strcap(ex, st, a), _strcap(ex, st, b)) if kind != 'memcmp' else st.aux.get('strcap', 16)
+        reached = z3.BoolVal(True); parts = []
+        for i in range(K):
+            guard = reached if n is None else z3.And(reached, z3.UGT(n, i))
+            ca = _byte_at(ex, st, a, i, guard); cb = _byte_at(ex, st, b, i, guard)
+            if ca is None or cb is None: break
+            parts.append((guard, ca, cb))
+            reached = z3.And(guard, ca == cb) if kind == 'memcmp' else z3.And(guard, ca == cb, ca != 0)
+        out = z3.BitVecVal(0, 32)
+        for guard, ca, cb in reversed(parts):
+            diff = z3.ZeroExt(24, ca) - z3.ZeroExt(24, cb)
+            if kind == 'memcmp': out = z3.If(z3.And(guard, ca != cb), diff, out)
+            else: out = z3.If(z3.And(guard, ca != cb), diff, z3.If(z3.And(guard, ca == 0), z3.BitVecVal(0, 32), out))
+        if len(parts) == K:
+            ex.add_obl(st, z3.Not(reached), '%s comparison ends within the modelled cap' % kind, kind='model')
+        return out
+    return stub
+
+
 DEFAULT_STUBS = {
+    'strlen': _stub_strlen, 'strcmp': _stub_cmp('strcmp'), 'strncmp': _stub_cmp('strncmp'), 'memcmp': _stub_cmp('memcmp'),
     'memset': _stub_libc_mem('memset'), 'memcpy': _stub_libc_mem('memcpy'), 'memmove': _stub_libc_mem('memcpy'),
     'mju_message': _stub_message, 'mju_error': _stub_error, 'mju_error_v': _stub_error,
     'mju_warning': _stub_warning, 'snprintf': _stub_zero32, 'printf': _stub_zero32,
